@@ -118,7 +118,7 @@ Proof.
   cbn [grp_modes_ok]. destruct (T_datatypes T ty) as [d|]; [|discriminate]. rewrite andb_true_iff. intros [M F].
   exists d. split; [reflexivity|]. split; [apply N.leb_le; exact M|].
   intros pos kind idx Hp ES K. rewrite forallb_forall in F. specialize (F pos (proj2 (iota_spec _ _) Hp)).
-  rewrite ES in F. apply orb_true_iff in F as [F|F]; [apply N.eqb_eq in F; congruence|exact F].
+  rewrite ES in F. destruct (kind =? 0) eqn:KK; [apply N.eqb_eq in KK; congruence|exact F].
 Qed.
 
 (* the mode of the common group of two index paths is one of the five modes *)
@@ -208,6 +208,34 @@ Proof.
 Qed.
 
 End Spec12.
+
+(* ------------------------------------------------------------------ finite parent chains *)
+Section Chains.
+Variable T : tables.
+Variable tab_el tab_en : nametab.
+Notation Closed := (Closed T tab_el tab_en).
+
+(* ---- finite parent chains are shorter than the fuel *)
+Lemma depth_lt_fuel w i h : Closed w -> Depth w i h -> (S h < fuel_of w)%nat.
+Proof.
+  intros C D. destruct (depth_chain w i h) as (l & Hlen & Hnd & Hl); auto.
+  - intros x (n & E). apply (cl_alloc _ _ _ _ C). congruence.
+  - assert (B : (List.length l <= N.to_nat (w_next w))%nat).
+    { apply nodup_bounded; auto. intros y Hy. apply Hl. exact Hy. }
+    unfold fuel_of. lia.
+Qed.
+
+Lemma depth_parent w i n p h : w_nodes w i = Some n -> n_parent n = PElem p -> Depth w i h ->
+  exists h', h = S h' /\ Depth w p h'.
+Proof. intros E EP D. eapply par_depth; eauto. exists n. auto. Qed.
+
+Lemma depth_top w i n h : w_nodes w i = Some n -> (forall p, n_parent n <> PElem p) -> Depth w i h -> h = O.
+Proof.
+  intros E NP D. inversion D; subst; auto. exfalso. match goal with H : w_nodes w i = Some ?n0 |- _ => rewrite E in H; injection H as <- end.
+  eapply NP; eauto.
+Qed.
+
+End Chains.
 
 (* ------------------------------------------------------------------ the world *)
 Section NP.
@@ -307,26 +335,6 @@ Qed.
 Lemma parent_of_val n w : exists r, parent_of n w = Val (r, w).
 Proof. unfold parent_of. destruct (n_parent n); eexists; reflexivity. Qed.
 
-(* ---- finite parent chains are shorter than the fuel *)
-Lemma depth_lt_fuel w i h : Closed w -> Depth w i h -> (S h < fuel_of w)%nat.
-Proof.
-  intros C D. destruct (depth_chain w i h) as (l & Hlen & Hnd & Hl); auto.
-  - intros x (n & E). apply (cl_alloc _ _ _ _ C). congruence.
-  - assert (B : (List.length l <= N.to_nat (w_next w))%nat).
-    { apply nodup_bounded; auto. intros y Hy. apply Hl. exact Hy. }
-    unfold fuel_of. lia.
-Qed.
-
-Lemma depth_parent w i n p h : w_nodes w i = Some n -> n_parent n = PElem p -> Depth w i h ->
-  exists h', h = S h' /\ Depth w p h'.
-Proof. intros E EP D. eapply par_depth; eauto. exists n. auto. Qed.
-
-Lemma depth_top w i n h : w_nodes w i = Some n -> (forall p, n_parent n <> PElem p) -> Depth w i h -> h = O.
-Proof.
-  intros E NP D. inversion D; subst; auto. exfalso. match goal with H : w_nodes w i = Some ?n0 |- _ => rewrite E in H; injection H as <- end.
-  eapply NP; eauto.
-Qed.
-
 (* Element::model *)
 Lemma model_walk_ok w : Closed w -> forall i h, Depth w i h -> forall f, (h < f)%nat ->
   rd (model_walk f i) w (fun m => m < N.of_nat (List.length (w_models w))).
@@ -349,7 +357,7 @@ Lemma model_of_ok w i : Closed w -> UpWF w -> i < w_next w ->
 Proof.
   intros C U L. destruct (U i L) as (h & D). unfold model_of.
   eapply rd_bind; [exists (OK w); split; [reflexivity|]; intros a [= <-]; exact (eq_refl w)|].
-  intros a <-. eapply model_walk_ok; eauto. pose proof (depth_lt_fuel w i h C D). lia.
+  intros a <-. eapply model_walk_ok; eauto. pose proof (depth_lt_fuel T tab_el tab_en w i h C D). lia.
 Qed.
 
 (* Element::file_membership *)
@@ -376,7 +384,7 @@ Lemma file_membership_ok w i : Closed w -> UpWF w -> i < w_next w -> rd (file_me
 Proof.
   intros C U L. destruct (U i L) as (h & D). unfold file_membership.
   eapply rd_bind; [exists (OK w); split; [reflexivity|]; intros a [= <-]; exact (eq_refl w)|].
-  intros a <-. eapply fm_walk_ok; eauto. pose proof (depth_lt_fuel w i h C D). lia.
+  intros a <-. eapply fm_walk_ok; eauto. pose proof (depth_lt_fuel T tab_el tab_en w i h C D). lia.
 Qed.
 
 Lemma min_version_ok w i : Closed w -> UpWF w -> i < w_next w -> rd (min_version LATEST i) w (fun _ => True).
@@ -418,7 +426,7 @@ Proof.
   intros C U L. destruct p as [|m|i].
   - unfold fuel_of. cbn [up_names]. apply rd_fail.
   - unfold fuel_of. cbn [up_names]. apply rd_ret. exists []. reflexivity.
-  - destruct (U i L) as (h & D). eapply up_names_ok; eauto. eapply depth_lt_fuel; eauto.
+  - destruct (U i L) as (h & D). eapply up_names_ok; eauto. eapply (depth_lt_fuel T tab_el tab_en); eauto.
 Qed.
 
 Lemma join_path_app a b : join_path (a ++ b) = join_path a ++ join_path b.
